@@ -104,3 +104,10 @@ Theorem C31_backoff_law_example :
   = [(1 * sec, 0, 0); (3 * sec, 1, 1 * sec); (7 * sec, 2, 3 * sec)].
 Proof. exact backoff_law_example. Qed.
 Print Assumptions C31_backoff_law_example.
+
+(** The code before the repair: a timer whose goroutine had not yet entered
+    attemptReconnect when Pause ran starts an attempt during the pause. *)
+Theorem C31_refuted_pause_race_pre_fix :
+  exists pre o, starts_while_paused pre_fix std false pre o.
+Proof. exact refuted_pause_race. Qed.
+Print Assumptions C31_refuted_pause_race_pre_fix.
